@@ -77,7 +77,7 @@ THEOREMS = [
     'C06.gen_countNatoms_eq_model', 'C06.gen_propDispatch_eq_model', 'C06.gen_atomsPropDispatch_eq_model',
     'C06.gen_patypeTableOk_eq_model', 'C06.gen_extendDispatch_eq_model', 'C06.gen_sysNatypesOf_eq_model',
     'C06.gen_padTests_eq_model', 'C06.gen_massesSetDecision_eq_model', 'C06.gen_systemInit_eq_model',
-    'C06.gen_atomsExtend_eq_model', 'C06.gen_step_eq_model',
+    'C06.gen_atomsExtend_eq_model', 'C06.gen_step_eq_model', 'C06.gen_posCastKinds_eq_model', 'C06.posLit_ok', 'C06.posLit_spec',
     # ... and the functions of the model factor through those decisions
     'C06.viewBcast_by_decision', 'C06.viewBcast_refuse', 'C06.viewGuard_refuses_iff', 'C06.atypeGuard_refuses_iff',
     'C06.mkAtoms_defaults', 'C06.sysNatypes_by_decision', 'C06.symbolsGet_by_decision', 'C06.massesSet_by_decision',
@@ -485,9 +485,17 @@ def translate():
     C = Cond({'pos': ('pos', 'opt'), 'pos.ndim': ('(pos.getD []).length', 'nat'),
               'pos.shape[0]': ('(pos.getD []).getD 0 0', 'nat'), 'pos.shape[1]': ('(pos.getD []).getD 1 0', 'nat')}, {},
              'Atoms.__init__ (pos)')
+    cast = [x for x in ast.walk(seg[0]) if isinstance(x, ast.If) and ast.unparse(x.test).startswith('pos.dtype.kind')]
+    if len(cast) != 1 or cast[0].orelse or [ast.unparse(x) for x in cast[0].body] != ['pos = pos.astype(float)'] \
+            or not (isinstance(cast[0].test, ast.Compare) and len(cast[0].test.ops) == 1 and isinstance(cast[0].test.ops[0], ast.In)
+                    and ast.unparse(cast[0].test.left) == 'pos.dtype.kind' and isinstance(cast[0].test.comparators[0], ast.Constant)
+                    and isinstance(cast[0].test.comparators[0].value, str)):
+        fail('Atoms.__init__: the dtype decision for pos is not `if pos.dtype.kind in <kinds>: pos = pos.astype(float)`')
+    emit('/-- `Atoms.__init__`: the dtype kinds of `pos` that are stored as float (`pos.astype(float)`). -/')
+    emit('def posCastKinds : List String := [' + ', '.join(lstr(c) for c in cast[0].test.comparators[0].value) + ']')
     emit('/-- `Atoms.__init__`, "Check pos parameter values": natoms_pos from the shape of `pos` (if given). -/')
     emit('def countPos (pos : Option (List Nat)) : Except Err Int := ' + tree(seg, C, dict(RAISES, **{
-        'pos = np.asarray(pos)': 'skip', "if pos.dtype.kind in 'iub':\n    pos = pos.astype(float)": 'skip',
+        'pos = np.asarray(pos)': 'skip', ast.unparse(cast[0]): 'skip',
         'natoms_pos = 1': ('ret', '.ok 1'),
         'natoms_pos = pos.shape[0]': ('ret', '.ok (((pos.getD []).getD 0 0 : Nat) : Int)'),
         "pos = np.zeros((1, 3), dtype='float64')": 'skip'}), None, 'Atoms.__init__ (pos)'))
@@ -1546,10 +1554,12 @@ def gen_new(rng, k, nmax=6):
         op['atype'] = gen_lit(rng, 'i', [n], 'atype')
     elif c < 0.85:
         op['atype'] = lit('i', [], [rng.choice([1, 2])])
+    # positions: float mostly; integer / boolean input is stored as float by the constructor (dtype decision of __init__)
+    pdt = rng.choice(['f'] * 8 + ['i', 'b'])
     if rng.random() < 0.8:
-        op['pos'] = gen_lit(rng, 'f', [n, 3])
+        op['pos'] = gen_lit(rng, pdt, [n, 3])
     elif rng.random() < 0.5:
-        op['pos'] = gen_lit(rng, 'f', [1, 3])
+        op['pos'] = gen_lit(rng, pdt, [1, 3])
     if rng.random() < 0.25 or ('atype' not in op and 'pos' not in op):
         op['natoms'] = n if rng.random() < 0.9 else n + 1
     extra = []
@@ -2113,7 +2123,7 @@ def correspond(ctx):
     # the accessor matrix first (fixed histories, a few operations each)
     nmat = 0
     for name, ops in matrix_histories(rng):
-        if name.startswith(('names:', 'tables:extend', 'shapes:')):   # the model follows everything but the DataFrame / len / str reads
+        if name.startswith(('names:', 'tables:extend', 'shapes:', 'posdtype:')):   # the model follows everything but the DataFrame / len / str reads
             ops = [op for op in ops if op['op'] not in SEARCH_ONLY]
         if name.startswith('dtypes:'):
             ops = [op for op in ops if op['op'] not in SEARCH_ONLY]
@@ -2349,7 +2359,9 @@ def oracle_apply(op, O, OS):
         cols['atype'] = o_lit_rows(at, n, [])
         ps = op.get('pos') or lit('f', [1, 3], [0.0, 0.0, 0.0])
         meta['pos'] = ['f', [3], None]
-        cols['pos'] = o_lit_rows(ps, n, [3])
+        # specification: positions are Cartesian coordinates, stored as floats whatever numeric dtype they are given in
+        cols['pos'] = [tuple(o_cast('f', None, c) for c in r) for r in o_lit_rows(ps, n, [3])] if ps['dt'] in ('i', 'b') \
+            else o_lit_rows(ps, n, [3])
         for kk, v in op.get('extra', []):
             trail = v['shape'][1:] if v['shape'] else []
             meta[kk] = [v['dt'], trail, v.get('w')]
@@ -3698,6 +3710,7 @@ def matrix_histories(rng, refusals=True):
     out += matrix_tables(rng)
     out += matrix_shapes(rng)
     out += matrix_flags(rng)
+    out += matrix_posdtype(rng)
     return out
 
 
@@ -3960,6 +3973,33 @@ def matrix_shapes(rng):
                     {'op': 'pget', 'o': 'a0', 'key': 'p4', 'ix': None},
                     {'op': 'sext', 's': 's1', 'value': ['a', 'a2'], 'scale': False, 'symbols': None, 'id': 5},
                     {'op': 'spget', 's': 's5', 'key': 'p4', 'ix': None}]))
+    return out
+
+
+def matrix_posdtype(rng):
+    """the dtype decision of the constructor for `pos`: integer / boolean positions (full, one row; also with natoms) are stored as floats - read back, written with halves (which an integer column would truncate), extracted,
+    copied, extended, wrapped in a System and read scaled."""
+    out = []
+    box = [2.0, 0.0, 0.0, 1.0, 4.0, 0.0, 0.0, 0.0, 0.5, 1.0, 0.0, 0.0]
+    for dt in ('i', 'b'):
+        cells = (lambda k: [((7 * j) % 5) - 1 for j in range(k)]) if dt == 'i' else (lambda k: [j % 3 == 0 for j in range(k)])
+        for form, shape, extra in (('full', [4, 3], {}), ('row', [1, 3], {'natoms': 4}), ('row1', [1, 3], {})):
+            n = extra.get('natoms', shape[0] if len(shape) == 2 else 1)
+            base = dict({'op': 'new', 'id': 0, 'pos': lit(dt, shape, cells(_prod(shape))),
+                         'extra': [['p0', gen_lit(rng, 'i', [n])]]}, **extra)
+            if form != 'row1':
+                base['atype'] = lit('i', [n], [1 + j % 2 for j in range(n)])
+            ops = [base, {'op': 'pget', 'o': 'a0', 'key': 'pos', 'ix': None},
+                   {'op': 'pset', 'o': 'a0', 'key': 'pos', 'ix': ['I', 0], 'val': lit('f', [3], [0.5, 1.5, -2.25])},
+                   {'op': 'pget', 'o': 'a0', 'key': 'pos', 'ix': None},
+                   {'op': 'geti', 'o': 'a0', 'ix': ['I', 0], 'id': 1}, {'op': 'pget', 'o': 'a1', 'key': 'pos', 'ix': None},
+                   {'op': 'dcopy', 'o': 'a0', 'id': 2}, {'op': 'exti', 'o': 'a0', 'n': 1, 'id': 3},
+                   {'op': 'pget', 'o': 'a3', 'key': 'pos', 'ix': None},
+                   {'op': 'mksys', 'o': 'a0', 'id': 4, 'box': box, 'pbc': [True, True, True], 'symbols': ['Al', 'Cu']},
+                   {'op': 'spset', 's': 's4', 'key': 'pos', 'ix': ['I', 0], 'val': lit('f', [3], [0.25, 0.5, 0.75]), 'scale': True},
+                   {'op': 'spget', 's': 's4', 'key': 'pos', 'ix': None}, {'op': 'spget', 's': 's4', 'key': 'pos', 'ix': None, 'scale': True},
+                   {'op': 'df', 'o': 'a0'}]
+            out.append((f'posdtype:{dt}:{form}', ops))
     return out
 
 
